@@ -3653,6 +3653,310 @@ Proof.
 Qed.
 
 (* ------------------------------------------------------------------ *)
+(** * E''''. C12 (last sentence): the lifecycle events are published for every occurrence *)
+
+Lemma events_senq t : Forall senqP t -> events_of t = [] /\ recvs_of t = [].
+Proof.
+  induction 1 as [|e t He _ [IH1 IH2]]; [split; reflexivity|]. destruct e; try contradiction; cbn; rewrite ?IH1, ?IH2; split; reflexivity.
+Qed.
+Definition dead_mev (e : mevent) : Prop := match e with MDeadUser _ | MDeadPill => True | _ => False end.
+Lemma events_deadP t : Forall deadP t -> Forall dead_mev (events_of t) /\ recvs_of t = [].
+Proof.
+  induction 1 as [|e t He _ [IH1 IH2]]; [split; [constructor|reflexivity]|].
+  destruct e as [ | | | | | | |[]| | | | | | | | | ]; try contradiction; cbn; (split; [|exact IH2]);
+    try exact IH1; constructor; try exact IH1; exact I.
+Qed.
+
+(* the events other than dead letters, in publication order *)
+Definition lifeev (t : list event) : list mevent := filter (fun e => negb (is_deadm e)) (events_of t).
+
+(* [expected_events] of ProcExec.v for an arbitrary configuration *)
+Fixpoint expected_c (c : cfg) (k : nat) (pend : option bool) (l : list orecv) : list mevent :=
+  match l with
+  | [] => []
+  | r :: l' =>
+    match or_msg r with
+    | LStopped =>
+      match pend with
+      | Some false => if Nat.eqb k (maxr c) then MMaxRestarts :: MStopped :: expected_c c k None l'
+                      else MRestarted (S k) :: expected_c c (S k) None l'
+      | Some true => expected_c c k None l'
+      | None => MStopped :: expected_c c k None l'
+      end
+    | m =>
+      let pk := panic_kind (scr c (or_inc r) m) in
+      match m, pk with
+      | LInit, None => [MInitialized]
+      | LStarted, None => [MStarted]
+      | _, _ => []
+      end ++ expected_c c k pk l'
+    end
+  end.
+
+Lemma expected_cfg_of cs : forall l k p,
+  expected_events (c_table cs) (c_maxr cs) k p l = expected_c (cfg_of cs) k p l.
+Proof.
+  induction l as [|r l IH]; intros k p; [reflexivity|]. cbn [expected_events expected_c].
+  destruct (or_msg r); cbn [scr cfg_of maxr]; rewrite ?IH; try reflexivity.
+Qed.
+
+Lemma lifeev_app a b : lifeev (a ++ b) = lifeev a ++ lifeev b.
+Proof. unfold lifeev. rewrite events_of_app, filter_app. reflexivity. Qed.
+Lemma lifeev_silent e t : events_of [e] = [] -> lifeev (e :: t) = lifeev t.
+Proof. intros H. change (e :: t) with ([e] ++ t). rewrite lifeev_app. unfold lifeev at 1. rewrite H. reflexivity. Qed.
+Lemma lifeev_ev e m t : events_of [e] = [m] -> is_deadm m = false -> lifeev (e :: t) = m :: lifeev t.
+Proof. intros H Hm. change (e :: t) with ([e] ++ t). rewrite lifeev_app. unfold lifeev at 1. rewrite H. cbn. rewrite Hm. reflexivity. Qed.
+Lemma recvs_silent e t : recvs_of [e] = [] -> recvs_of (e :: t) = recvs_of t.
+Proof. intros H. change (e :: t) with ([e] ++ t). rewrite recvs_of_app, H. reflexivity. Qed.
+
+Lemma hev_lifeev t : Forall hev t -> lifeev t = [] /\ recvs_of t = [].
+Proof.
+  induction 1 as [|e t He _ [IH1 IH2]]; [split; reflexivity|].
+  destruct e as [ | | | | | | |[]| | | | | | | | | ]; try contradiction;
+    (split; [rewrite <- IH1|rewrite <- IH2]); reflexivity.
+Qed.
+
+Definition okind (o : outcome) : option bool := match o with Normal => None | Panicking b => Some b end.
+
+Lemma do_actions_panic_kind : forall acts s s' t o, do_actions s acts = (s', t, o) -> panic_kind acts = okind o.
+Proof.
+  induction acts as [|a acts IH]; intros s s' t o H; cbn [do_actions] in H.
+  - injection H as <- <- <-. reflexivity.
+  - destruct a; try (injection H as <- <- <-; reflexivity);
+      match type of H with (let '(_, _) := ?X in _) = _ => destruct X as [s1 t1] end;
+      destruct (do_actions s1 acts) as [[s2 t2] o2] eqn:E2; injection H as <- <- <-; cbn [panic_kind];
+      eapply IH; exact E2.
+Qed.
+
+Lemma recv_c12 c s m s' t o : recv c s true m = (s', t, o) ->
+  recvs_of t = [{| or_inc := inc s; or_msg := m; or_snd := csender s; or_full := true |}] /\
+  lifeev t = [] /\ panic_kind (scr c (inc s) m) = okind o /\ restarts s' = restarts s /\ inc s' = inc s.
+Proof.
+  intros H. apply recv_inv in H as (ta & -> & H). pose proof (do_actions_panic_kind _ _ _ _ _ H) as Hk.
+  apply do_actions_frame in H as [(Hi & Hr & _) Hh]. destruct (hev_lifeev _ Hh) as [L R].
+  cbn [recvs_of]. rewrite R. rewrite lifeev_silent by reflexivity. repeat split; assumption.
+Qed.
+
+Section C12.
+Variable c : cfg.
+Hypothesis Hs : stopped_safe c.
+
+Notation EX := (expected_c c).
+
+Lemma invoke_msg_c12 s e s' t o : invoke_msg c s e = (s', t, o) ->
+  lifeev t = [] /\ restarts s' = restarts s /\ inc s' = inc s /\
+  forall k rest, EX k None (recvs_of t ++ rest) = EX k (okind o) rest.
+Proof.
+  unfold invoke_msg. destruct (emsg e).
+  - intros H. apply recv_c12 in H as (R & L & K & Hr & Hi). cbn [inc upd_csender restarts] in *.
+    repeat split; try assumption. intros k rest. rewrite R. cbn [app expected_c or_msg or_inc]. rewrite K. reflexivity.
+  - intros [= <- <- <-]. repeat split.
+Qed.
+
+Lemma drain_c12 : forall l s n sk s' t o np sk', drain c s l n sk = (s', t, o, np, sk') ->
+  lifeev t = [] /\ restarts s' = restarts s /\ inc s' = inc s /\
+  forall k rest, EX k None (recvs_of t ++ rest) = EX k (okind o) rest.
+Proof.
+  induction l as [|e l IH]; intros s n sk s' t o np sk' H; cbn [drain] in H.
+  - injection H as <- <- <- <- <-. repeat split.
+  - destruct (emsg e) eqn:Ee; [|eapply IH; exact H].
+    destruct (invoke_msg c s e) as [[s1 t1] o1] eqn:E1. apply invoke_msg_c12 in E1 as (L1 & R1 & I1 & X1). destruct o1.
+    + destruct (drain c s1 l (S n) sk) as [[[[s2 t2] o2] np2] sk2] eqn:E2. injection H as <- <- <- <- <-.
+      apply IH in E2 as (L2 & R2 & I2 & X2). rewrite lifeev_app, L1, L2. repeat split; try congruence.
+      intros k rest. rewrite recvs_of_app, <- app_assoc, X1. apply X2.
+    + injection H as <- <- <- <- <-. repeat split; assumption.
+Qed.
+
+Lemma cleanup_c12 s k0 s' t : cleanup c s k0 = (s', t, Normal) ->
+  recvs_of t = [{| or_inc := inc s; or_msg := LStopped; or_snd := csender s; or_full := true |}] /\
+  lifeev t = [MStopped] /\ restarts s' = restarts s.
+Proof.
+  intros H. apply cleanup_normal_inv in H as (s1 & t1 & E & -> & ->).
+  apply recv_c12 in E as (R & L & _ & Hr & _). cbn [inc csender restarts upd_istopped upd_dead upd_queue upd_registered] in *.
+  assert (Hd : Forall hev (flat_map discard (queue s1) ++ match k0 with Some k1 => [Cancel k1] | None => [] end)).
+  { apply Forall_app; split; [apply flat_discard_hev|destruct k0; repeat constructor]. }
+  destruct (hev_lifeev _ Hd) as [Ld Rd]. split; [|split; [|exact Hr]].
+  - rewrite recvs_silent by reflexivity. rewrite recvs_of_app, R. rewrite !recvs_silent by reflexivity. rewrite Rd. reflexivity.
+  - rewrite lifeev_silent by reflexivity. rewrite lifeev_app, L. cbn [app].
+    rewrite lifeev_silent by reflexivity. rewrite (lifeev_ev EvStopped MStopped) by reflexivity. rewrite Ld. reflexivity.
+Qed.
+
+Lemma invoke_loop_c12 : forall l s n s' t o np d, invoke_loop c s l n = (s', t, o, np, d) ->
+  restarts s' = restarts s /\ inc s' = inc s /\
+  forall k rest, EX k None (recvs_of t ++ rest) = lifeev t ++ EX k (okind o) rest.
+Proof.
+  induction l as [|e l IH]; intros s n s' t o np d H; cbn [invoke_loop] in H.
+  - injection H as <- <- <- <- <-. repeat split.
+  - destruct (emsg e) eqn:Ee.
+    + destruct (invoke_msg c s e) as [[s1 t1] o1] eqn:E1. apply invoke_msg_c12 in E1 as (L1 & R1 & I1 & X1). destruct o1.
+      * destruct (invoke_loop c s1 l (S n)) as [[[[s2 t2] o2] np2] d2] eqn:E2. injection H as <- <- <- <- <-.
+        apply IH in E2 as (R2 & I2 & X2). split; [congruence|]. split; [congruence|].
+        intros k rest. rewrite recvs_of_app, <- app_assoc, X1, lifeev_app, L1. apply X2.
+      * injection H as <- <- <- <- <-. split; [exact R1|]. split; [exact I1|]. intros k rest. rewrite L1. apply X1.
+    + assert (Hd : exists s1 t1 o1 np1 sk1,
+          (if graceful then drain c s l (S n) [] else (s, [], Normal, S n, [])) = (s1, t1, o1, np1, sk1) /\
+          lifeev t1 = [] /\ restarts s1 = restarts s /\ inc s1 = inc s /\
+          forall k rest, EX k None (recvs_of t1 ++ rest) = EX k (okind o1) rest).
+      { destruct graceful.
+        - destruct (drain c s l (S n) []) as [[[[s1 t1] o1] np1] sk1] eqn:E1. exists s1, t1, o1, np1, sk1.
+          split; [reflexivity|]. eapply drain_c12; exact E1.
+        - exists s, [], Normal, (S n), []. repeat split. }
+      destruct Hd as (s1 & t1 & o1 & np1 & sk1 & Heq & L1 & R1 & I1 & X1). rewrite Heq in H. clear Heq. destruct o1.
+      * destruct (cleanup c s1 (Some k)) as [[s2 t2] o2] eqn:E2.
+        pose proof (cleanup_safe _ _ _ _ _ _ Hs E2) as ->.
+        pose proof (cleanup_quiet _ _ _ _ _ _ E2) as [_ Hr2].
+        assert (Hi2 : inc s2 = inc s1).
+        { apply cleanup_normal_inv in E2 as (sx & tx & Ex & -> & _). apply recv_c12 in Ex as (_&_&_&_&Hx). exact Hx. }
+        apply cleanup_c12 in E2 as (Rc & Lc & _).
+        injection H as <- <- <- <- <-. split; [congruence|]. split; [congruence|].
+        intros k0 rest. destruct (hev_lifeev _ (discard_rest_hev graceful l)) as [Ld Rd].
+        rewrite !recvs_of_app, Rd, app_nil_r, <- app_assoc, X1, Rc, !lifeev_app, L1, Lc, Ld.
+        cbn [app expected_c or_msg okind]. reflexivity.
+      * injection H as <- <- <- <- <-. split; [exact R1|]. split; [exact I1|]. intros k0 rest. rewrite L1. apply X1.
+Qed.
+
+Lemma start_end_c12 s3 : lifeev (snd (start_end s3)) = [] /\ recvs_of (snd (start_end s3)) = [] /\
+  restarts (fst (start_end s3)) = restarts s3.
+Proof. unfold start_end. destruct (dead s3); repeat split. Qed.
+
+Theorem safe_c12 :
+  (forall s msgs s' t, Invoke_s c s msgs s' t ->
+     forall rest, EX (restarts s) None (recvs_of t ++ rest) = lifeev t ++ EX (restarts s') None rest) /\
+  (forall s s' t, Start_s c s s' t ->
+     forall rest, EX (restarts s) None (recvs_of t ++ rest) = lifeev t ++ EX (restarts s') None rest) /\
+  (forall s b s' t, Restart_s c s b s' t ->
+     forall rest, EX (restarts s) (Some b) (recvs_of t ++ rest) = lifeev t ++ EX (restarts s') None rest).
+Proof.
+  apply safe_mutind.
+  - intros s msgs s' t np d El rest. apply invoke_loop_c12 in El as (R & _ & X). rewrite R. apply X.
+  - intros s msgs s1 t1 b np d s' t2 El _ IH rest. apply invoke_loop_c12 in El as (R & _ & X).
+    cbn [restarts upd_mbuf] in IH. rewrite recvs_of_app, <- app_assoc, X, lifeev_app, <- app_assoc. f_equal.
+    rewrite <- R. apply IH.
+  - intros s si ti b s' t' Ei _ IH rest. apply recv_c12 in Ei as (R & L & K & Hr & Hi).
+    cbn [inc upd_inc restarts csender] in *.
+    rewrite recvs_silent, lifeev_silent by reflexivity. rewrite recvs_of_app, R, lifeev_app, L. cbn [app expected_c or_msg or_inc].
+    rewrite K. cbn [okind app]. rewrite <- Hr. apply IH.
+  - intros s si ti s2 ts b s' t' Ei Es _ IH rest.
+    apply recv_c12 in Ei as (R & L & K & Hr & Hi). apply recv_c12 in Es as (R2 & L2 & K2 & Hr2 & Hi2).
+    cbn [inc upd_inc restarts csender] in *.
+    rewrite recvs_silent, lifeev_silent by reflexivity. rewrite recvs_of_app, R, lifeev_app, L. cbn [app expected_c or_msg or_inc].
+    rewrite K. cbn [okind app]. rewrite recvs_silent by reflexivity. rewrite (lifeev_ev EvInitialized MInitialized) by reflexivity.
+    rewrite recvs_of_app, R2, lifeev_app, L2. cbn [app expected_c or_msg or_inc]. rewrite K2. cbn [okind app].
+    rewrite <- Hr, <- Hr2. cbn [app]. rewrite IH. reflexivity.
+  - intros s si ti s2 ts Ei Es Hb rest.
+    apply recv_c12 in Ei as (R & L & K & Hr & Hi). apply recv_c12 in Es as (R2 & L2 & K2 & Hr2 & Hi2).
+    cbn [inc upd_inc restarts csender] in *. destruct (start_end_c12 s2) as (Le & Re & Hre).
+    rewrite recvs_silent, lifeev_silent by reflexivity. rewrite recvs_of_app, R, lifeev_app, L. cbn [app expected_c or_msg or_inc].
+    rewrite K. cbn [okind app]. rewrite recvs_silent by reflexivity. rewrite (lifeev_ev EvInitialized MInitialized) by reflexivity.
+    rewrite recvs_of_app, R2, lifeev_app, L2. cbn [app expected_c or_msg or_inc]. rewrite K2. cbn [okind app].
+    rewrite recvs_silent by reflexivity. rewrite (lifeev_ev EvStarted MStarted) by reflexivity.
+    rewrite Re, Le, Hre. cbn [app]. congruence.
+  - intros s si ti s2 ts s3 t3 Ei Es Hb _ IH rest.
+    apply recv_c12 in Ei as (R & L & K & Hr & Hi). apply recv_c12 in Es as (R2 & L2 & K2 & Hr2 & Hi2).
+    cbn [inc upd_inc restarts csender] in *. destruct (start_end_c12 (upd_mbuf s3 [])) as (Le & Re & Hre).
+    rewrite recvs_silent, lifeev_silent by reflexivity. rewrite recvs_of_app, R, lifeev_app, L. cbn [app expected_c or_msg or_inc].
+    rewrite K. cbn [okind app]. rewrite recvs_silent by reflexivity. rewrite (lifeev_ev EvInitialized MInitialized) by reflexivity.
+    rewrite recvs_of_app, R2, lifeev_app, L2. cbn [app expected_c or_msg or_inc]. rewrite K2. cbn [okind app].
+    rewrite recvs_silent by reflexivity. rewrite (lifeev_ev EvStarted MStarted) by reflexivity.
+    rewrite recvs_of_app, Re, app_nil_r, lifeev_app, Le, app_nil_r, Hre. cbn [restarts upd_mbuf].
+    rewrite <- Hr, <- Hr2. cbn [app]. rewrite IH. reflexivity.
+  - intros s s1 t1 s' t' E1 _ IH rest. apply recv_c12 in E1 as (R & L & _ & Hr & _).
+    rewrite recvs_of_app, R, lifeev_app, L. cbn [app expected_c or_msg]. rewrite recvs_silent, lifeev_silent by reflexivity.
+    rewrite <- Hr. apply IH.
+  - intros s s1 t1 Hmax E1 rest. apply cleanup_c12 in E1 as (R & L & Hr).
+    destruct (hev_lifeev _ (flat_discard_hev (mbuf s1))) as [Ld Rd].
+    rewrite recvs_silent by reflexivity. rewrite (lifeev_ev EvMaxRestarts MMaxRestarts) by reflexivity.
+    rewrite recvs_of_app, R, Rd, lifeev_app, L, Ld. cbn [app expected_c or_msg restarts upd_mbuf].
+    rewrite Hmax, Nat.eqb_refl, Hr, Hmax. reflexivity.
+  - intros s s1 t1 s' t3 Hne E1 _ IH rest. apply recv_c12 in E1 as (R & L & _ & Hr & _).
+    rewrite recvs_of_app, R, lifeev_app, L. cbn [app expected_c or_msg]. apply Nat.eqb_neq in Hne. rewrite Hne.
+    rewrite recvs_silent by reflexivity. rewrite (lifeev_ev (EvRestarted _) (MRestarted (S (restarts s1)))) by reflexivity.
+    rewrite recvs_silent, lifeev_silent by reflexivity. rewrite Hr.
+    specialize (IH rest). cbn [restarts upd_restarts] in IH. rewrite Hr in IH. cbn [app]. rewrite IH. reflexivity.
+Qed.
+
+Lemma RunLoop_c12 s s' t : RunLoop_s c s s' t ->
+  forall rest, EX (restarts s) None (recvs_of t ++ rest) = lifeev t ++ EX (restarts s') None rest.
+Proof.
+  induction 1 as [s E|s E Eq|s s1 t1 s2 t2 E Eq Hi _ IH]; intros rest; try reflexivity.
+  rewrite recvs_of_app, <- app_assoc, (proj1 safe_c12 _ _ _ _ Hi), lifeev_app, <- app_assoc. f_equal. apply IH.
+Qed.
+
+Lemma Exts_c12 s xs s' t : Exts_s c s xs s' t ->
+  forall rest, EX (restarts s) None (recvs_of t ++ rest) = lifeev t ++ EX (restarts s') None rest.
+Proof.
+  induction 1 as [s|s x s1 t1 s2 t2 xs s3 t3 Ep Hl _ IH]; intros rest; [reflexivity|].
+  apply ext_pre_frame in Ep as [(_ & Hr & _) Hh]. destruct (hev_lifeev _ Hh) as [L R].
+  rewrite !recvs_of_app, R, !lifeev_app, L. cbn [app]. rewrite <- !app_assoc, <- Hr, (RunLoop_c12 _ _ _ Hl). f_equal. apply IH.
+Qed.
+
+Theorem Run_c12 xs s t : Run_s c xs s t -> lifeev t = EX 0 None (recvs_of t).
+Proof.
+  intros [s0 t0 s1 t1 s2 t2 H0 H1 H2].
+  pose proof (proj1 (proj2 safe_c12) _ _ _ H0 (recvs_of t1 ++ recvs_of t2 ++ [])) as E0.
+  pose proof (RunLoop_c12 _ _ _ H1 (recvs_of t2 ++ [])) as E1. pose proof (Exts_c12 _ _ _ _ H2 []) as E2.
+  cbn [restarts init_pst] in E0. rewrite !recvs_of_app, !lifeev_app. rewrite <- (app_nil_r (recvs_of t2)).
+  rewrite E0, E1, E2. cbn [expected_c]. rewrite app_nil_r. reflexivity.
+Qed.
+
+End C12.
+
+(* dead letters come only after ActorStoppedEvent, nothing else after it;
+   ActorStoppedEvent was published iff the monitor ends in PDead *)
+Lemma mstep_toward_dead m e m1 : mstep m e = Some m1 -> m_ctl m <> PDead ->
+  (e = EvStopped /\ m_ctl m1 = PDead) \/
+  (m_ctl m1 <> PDead /\ e <> EvStopped /\ forall p, e <> EvDeadLetter p).
+Proof.
+  destruct m as [cur w k]. cbn [m_ctl]. intros H Hk.
+  destruct k; try congruence; de e; ms_inv H; injection H as <-; cbn [m_ctl];
+    first [left; split; reflexivity | right; split; [discriminate|split; [discriminate|intros; discriminate]]].
+Qed.
+
+Definition is_mstopped (e : mevent) : bool := mevent_eqb e MStopped.
+
+Lemma mrun_dead_after_stopped : forall t m m', mrun t m = Some m' -> m_ctl m <> PDead ->
+  dead_after_stopped (events_of t) = true /\
+  existsb is_mstopped (events_of t) = (match m_ctl m' with PDead => true | _ => false end).
+Proof.
+  induction t as [|e t IH]; intros m m' H Hk; cbn [mrun] in H.
+  - injection H as <-. split; [reflexivity|]. cbn. destruct (m_ctl m); try reflexivity. congruence.
+  - destruct (mstep m e) as [m1|] eqn:E; [|discriminate].
+    destruct (mstep_toward_dead _ _ _ E Hk) as [[-> Hd]|(Hn & He & Hp)].
+    + destruct m1 as [cur w k]. cbn in Hd. subst k. destruct (mrun_from_dead _ _ _ _ H) as [Ht ->].
+      destruct (events_deadP _ Ht) as [Hdm _]. cbn [events_of app dead_after_stopped existsb is_mstopped mevent_eqb orb m_ctl].
+      split; [|reflexivity]. clear -Hdm. induction Hdm as [|x l Hx _ IHl]; [reflexivity|]. cbn [forallb]. rewrite IHl.
+      destruct x; try contradiction; reflexivity.
+    + destruct (IH _ _ H Hn) as [D X].
+      destruct e as [ | | | | | | |p| | | | | | | | | ]; cbn [events_of app dead_after_stopped existsb is_mstopped mevent_eqb is_deadm negb andb orb];
+        try (split; assumption); try congruence.
+Qed.
+
+Lemma cntb_count n l : cntb n l = count_occ Nat.eq_dec l n.
+Proof.
+  unfold cntb. induction l as [|x l IH]; [reflexivity|]. cbn [filter]. rewrite count_cons. unfold cn1.
+  destruct (n =? x); cbn [length]; rewrite IH; reflexivity.
+Qed.
+
+(** C12: every lifecycle occurrence is published, exactly once, in order *)
+Theorem C12_lifecycle_events_published_thm :
+  forall f c xs s t, stopped_safe c -> run f c xs = (s, t) -> out_of_fuel t = false ->
+  lifeev t = expected_c c 0 None (recvs_of t) /\
+  dead_after_stopped (events_of t) = true /\
+  registered s = negb (existsb is_mstopped (events_of t)) /\
+  (forall n, cntb n (user_payloads (recvs_of t)) + cntb n (dead_payloads (events_of t)) = cntb n (sends_of t)).
+Proof.
+  intros f c xs s t Hs H Hf. pose proof (run_sound c Hs _ _ _ _ H Hf) as Hr.
+  split; [apply (Run_c12 c Hs _ _ _ Hr)|].
+  destruct (run_accept _ _ _ _ _ Hs H Hf) as [Hm Ho].
+  destruct (mrun_dead_after_stopped _ _ _ Hm) as [D X]; [discriminate|]. split; [exact D|]. split.
+  - rewrite X. unfold mfin. destruct (dead s) eqn:Hd; cbn [m_ctl negb].
+    + apply (opened_dead _ Ho Hd).
+    + destruct Ho as [[[_ Hreg] _]|Hg]; [exact Hreg|destruct Hg; congruence].
+  - intros n. destruct (C05_no_silent_loss_thm _ _ _ _ _ Hs H Hf) as (Hp & _).
+    rewrite !cntb_count, <- count_occ_app. symmetry. apply (Permutation_count_occ Nat.eq_dec), Hp.
+Qed.
+
+(* ------------------------------------------------------------------ *)
 (** * F. Soundness of the oracles of ProcExec.v
 
     [selfcase c] is the case [c] whose observation is the model's own
@@ -3802,18 +4106,6 @@ Proof.
 Qed.
 
 (** C06 *)
-Lemma events_senq t : Forall senqP t -> events_of t = [] /\ recvs_of t = [].
-Proof.
-  induction 1 as [|e t He _ [IH1 IH2]]; [split; reflexivity|]. destruct e; try contradiction; cbn; rewrite ?IH1, ?IH2; split; reflexivity.
-Qed.
-Definition dead_mev (e : mevent) : Prop := match e with MDeadUser _ | MDeadPill => True | _ => False end.
-Lemma events_deadP t : Forall deadP t -> Forall dead_mev (events_of t) /\ recvs_of t = [].
-Proof.
-  induction 1 as [|e t He _ [IH1 IH2]]; [split; [constructor|reflexivity]|].
-  destruct e as [ | | | | | | |[]| | | | | | | | | ]; try contradiction; cbn; (split; [|exact IH2]);
-    try exact IH1; constructor; try exact IH1; exact I.
-Qed.
-
 Lemma after_max_split : forall t rest, after_max (events_of t) = Some rest ->
   exists t1 t2, t = t1 ++ EvMaxRestarts :: t2 /\ rest = events_of t2.
 Proof.
@@ -3870,6 +4162,26 @@ Proof.
     eapply C07_every_pill_cancelled_cor; [exact Hs|exact Hr|exact Hf|lia].
 Qed.
 
+Lemma orecv_eqb_refl r : orecv_eqb r r = true.
+Proof. unfold orecv_eqb. rewrite Nat.eqb_refl, lmsg_eqb_refl, !eqb_reflx. reflexivity. Qed.
+Lemma mevent_eqb_refl e : mevent_eqb e e = true.
+Proof. destruct e; cbn; try reflexivity; apply Nat.eqb_refl. Qed.
+
+(** C12 *)
+Theorem oracle_c12_sound c :
+  stopped_safe (cfg_of c) -> out_of_fuel (snd (model c)) = false -> oracle_c12 (selfcase c) = true.
+Proof.
+  intros Hs Hf. unfold oracle_c12.
+  cbn [c_obs c_table c_maxr selfcase model_obs o_hang o_recvs o_events o_sends o_escaped o_registered negb].
+  pose proof (model_run c) as Hr. set (t := snd (model c)) in *. set (s := fst (model c)) in *.
+  rewrite (C05_contained_thm _ _ _ _ _ Hs Hr). cbn [negb andb].
+  destruct (C12_lifecycle_events_published_thm _ _ _ _ _ Hs Hr Hf) as (He & Hd & Hreg & Hcnt).
+  rewrite expected_cfg_of. fold (lifeev t). rewrite <- He, (all2_refl _ _ mevent_eqb_refl), Hd. cbn [andb].
+  change (existsb (fun e => mevent_eqb e MStopped) (events_of t)) with (existsb is_mstopped (events_of t)).
+  rewrite <- Hreg, eqb_reflx. cbn [andb].
+  apply forallb_forall. intros n _. rewrite Hcnt. apply Nat.eqb_refl.
+Qed.
+
 (** all five *)
 Theorem C04567_13_oracle_sound_thm c :
   stopped_safe (cfg_of c) -> out_of_fuel (snd (model c)) = false ->
@@ -3879,17 +4191,13 @@ Proof.
   intros Hs Hf Hnd Hal.
   pose proof (oracle_c04_sound c Hs Hf) as H4. pose proof (oracle_c05_sound c Hs Hf Hnd) as H5.
   pose proof (oracle_c06_sound c Hs Hf) as H6. pose proof (oracle_c07_sound c Hs Hf Hal) as H7.
-  pose proof (oracle_c13_sound c Hs Hf) as H13.
+  pose proof (oracle_c13_sound c Hs Hf) as H13. pose proof (oracle_c12_sound c Hs Hf) as H12.
   unfold oracle. change (c_prop (selfcase c)) with (c_prop c).
   destruct (c_prop c) as [|[|[|[|[|[|[|[|[|[|[|[|[|[|n]]]]]]]]]]]]]]; try assumption;
-    rewrite H4, H5, H6, H7, H13; reflexivity.
+    rewrite H4, H5, H6, H7, H13, H12; reflexivity.
 Qed.
 
 (* the observation [model_obs] is what [corr] compares with *)
-Lemma orecv_eqb_refl r : orecv_eqb r r = true.
-Proof. unfold orecv_eqb. rewrite Nat.eqb_refl, lmsg_eqb_refl, !eqb_reflx. reflexivity. Qed.
-Lemma mevent_eqb_refl e : mevent_eqb e e = true.
-Proof. destruct e; cbn; try reflexivity; apply Nat.eqb_refl. Qed.
 
 Theorem corr_selfcase c : out_of_fuel (snd (model c)) = false -> corr (selfcase c) = true.
 Proof.
